@@ -72,7 +72,7 @@ func c10HashVariants(v interface{}) []string {
 			}
 		}
 	}
-	return append(respelled, enc(append(append([]byte{}, b...), 1, 2, 3, 4, 5, 6)), enc(append(append([]byte{}, b...), 0)), enc(shorter), enc(longer), enc(b[:len(b)-1]), s + "=", enc(append(append([]byte{}, b...), b...)))
+	return append(respelled, enc(append(append([]byte{}, b...), 1, 2, 3, 4, 5, 6)), enc(append(append([]byte{}, b...), 0)), enc(shorter), enc(longer), enc(b[:len(b)-1]), s+"=", enc(append(append([]byte{}, b...), b...)))
 }
 
 // c10Respell returns other base64url spellings of the same bytes (non-zero unused bits in the last character, an embedded line
